@@ -89,6 +89,40 @@ exactly the size needed, or whose previous contents are not zero; input slices t
 after the packet that do not belong to it), that start at an odd address, or whose length is huge; packets located at a non-zero offset
 inside a compound. Fresh, exact, zeroed, aligned buffers - which is what tests use - must behave as before.""",
  ],
+ "r14": [
+"""Aim for a COPY-PASTE / SIBLING DIVERGENCE defect: the crate has many near-identical siblings (SenderReport vs ReceiverReport,
+TransportFeedback vs PayloadFeedback, the five FCI types, borrowed vs `_owned` setters, `TryFrom<Packet>` vs `TryFrom<&Packet>`, the typed
+parser vs the same type reached through `Packet`/`Compound`, `SdesChunkBuilder` vs `SdesItemBuilder`). Make a plausible improvement or
+refactor in ONE sibling (or factor common code out of two siblings and get one of the parameters - an offset, a constant, a minimum
+length, a packet type - wrong for one of them) so that the sibling the test suite exercises for that aspect is fine and the other one
+breaks THIS property. The change must read as a consistent clean-up.""",
+"""Aim for a BIT-TWIDDLING / LOOKUP-TABLE / PRECOMPUTED-CONSTANT slip: replace a straightforward computation by a mask-and-shift trick,
+`leading_zeros`/`trailing_zeros`/`count_ones`, `rotate`, `swap_bytes`/`from_le_bytes` vs `from_be_bytes`, `next_multiple_of`, `div_ceil`,
+`(x + 3) & !3` on the wrong width, a small `const` table, or a named constant derived from another one - correct for every value the test
+suite uses (small numbers, byte-symmetric or palindromic patterns, values with the top bit clear, lengths already aligned) but wrong for a
+recognisable class of other values (top bit set, asymmetric bytes, exact multiples, zero, the maximum).""",
+"""Aim for a defect in TEXT / BYTE-CONTENT handling: anything where the *content* of a variable-length field steers the code - UTF-8
+validation or lossy conversion, `trim`/`trim_end_matches`, searching for a NUL or another delimiter (`position`, `split`, `find`) in data
+that may legitimately contain it, treating an empty string as "absent", comparing names case-insensitively, values that look like item
+headers, padding counts or packet headers, multi-byte characters straddling a length limit (byte length vs char count). Content made of
+plain short ASCII - which is what tests use - must behave exactly as before.""",
+ ],
+ "r15": [
+"""Aim for SILENT NORMALISATION at a setter or accessor: a builder method or getter that "helpfully" sorts, de-duplicates, merges,
+truncates, clamps, rounds, strips or defaults what it was given (or an accessor that hides, skips or coalesces entries it considers
+uninteresting: zero SSRCs, empty items, duplicate entries, all-zero words) instead of passing it through or rejecting it. Ordinary
+inputs - already sorted, unique, in range, non-empty - must behave exactly as before.""",
+"""Aim for a defect at the BOUNDARY BETWEEN TWO ADJACENT STRUCTURES: code that uses the length of the enclosing buffer/datagram where
+it should use the length of its own packet (or the other way round), reads one unit into its neighbour (next packet's header, next chunk's
+SSRC, the padding trailer, the profile extension after the report blocks, the reason after the BYE sources), or attributes a trailing
+element to the wrong owner. Single packets in exact buffers - which is what tests use - must behave exactly as before; the defect needs a
+particular neighbour (a following packet, padding, an extension, a second chunk) with particular content.""",
+"""Aim for a defect in a TRAIT CONTRACT that generic code relies on: `Iterator::size_hint`/`ExactSizeIterator::len`/`nth`/`fold`/
+`DoubleEndedIterator` overrides that disagree with `next()`, `Clone`d iterators or parsed values that share or lose position, `PartialEq`
+that ignores or over-includes a field (padding, trailing bytes), `Debug` that panics or mis-indexes for some values, `Default`/`From`
+impls that build an object violating an invariant the other methods assume, `AsRef`/`Borrow`/`Deref` exposing a different byte range than
+the accessors. The hand-written loops the tests use must behave exactly as before.""",
+ ],
 }
 
 
